@@ -402,11 +402,12 @@ class HSymSet:
 class Coro:
     """A coroutine object: an `async def` call not yet awaited."""
 
-    def __init__(self, thunk, label="coro"):
+    def __init__(self, thunk, label="coro", scripted=False):
         self.thunk = thunk
         self.label = label
         self.done = False
         self.outcome = None
+        self.scripted = scripted     # a scripted collaborator's coroutine (its effects are its whole meaning)
 
     def __repr__(self):
         return f"Coro<{self.label}>"
